@@ -616,6 +616,72 @@ def _read_fasta(ctx, f):
               "loop: it ends up describing the last protein visited, and "
               "a database with decoys can be treated as target-only",
               node=call[0])
+    # ... and it is existential: raised for a target whose decoy name is
+    # in the file, lowered nowhere but at its initialisation. A flag
+    # computed after the loop from a counter of the targets *without* a
+    # decoy ("not missing", "missing == 0") says "every target has one":
+    # a database with a single unpaired target is then treated as
+    # target-only
+    if hd is not None:
+        raised = 0
+        if hd[0] == "var":
+            cands = [(d.node, T.of_def(d)) for d in T.var_defs.get(hd, [])
+                     if d.node is not None]
+        else:
+            # a single definition is read through by the term builder
+            cands = [(call[0], hd)]
+        for dnode, v in cands:
+            in_loop = dnode is not call[0] and cfg.enclosing(
+                dnode, (ast.For, ast.While)) is not None
+            if in_loop:
+                if v == ("const", True):
+                    cd = _loop_conds(cfg, T, cfg.stmt_of(dnode))
+                    member = [c for c, o in cd if o and c[0] == "cmp"
+                              and c[1] == "in"]
+                    absent = [c for c, o in cd if not o and c[0] == "cmp"
+                              and c[1] == "not in"]
+                    ctx.check(bool(member or absent),
+                              "C16b-has-decoys-is-existential", f,
+                              "has_decoys is raised where a target's decoy "
+                              "name is found among the proteins",
+                              "has_decoys = True under "
+                              f"{[(show(c, 60), o) for c, o in cd]}: no "
+                              "membership test guards it", node=dnode)
+                    raised += 1
+                continue
+            if v == ("const", False):
+                continue
+            # a definition outside the loop that is not the initialisation
+            w = v
+            neg = False
+            while w[0] == "un" and w[1] == "not":
+                w, neg = w[2], not neg
+            zero_test = (w[0] == "cmp" and w[1] in ("==", "<=") and
+                         ("const", 0) in (w[2], w[3]))
+            counter = None
+            if neg and w[0] == "var":
+                counter = w
+            elif zero_test and not neg:
+                counter = w[2] if w[3] == ("const", 0) else w[3]
+            counted = counter is not None and counter[0] == "var" and any(
+                dd.node is not None and cfg.enclosing(
+                    dd.node, (ast.For, ast.While)) is not None
+                for dd in T.var_defs.get(counter, []))
+            if counted:
+                ctx.fail("C16b-has-decoys-is-existential", f,
+                         f"has_decoys = {show(v, 60)}",
+                         "has_decoys is true only when the loop's counter "
+                         f"{show(counter, 30)} stayed at zero, that is when "
+                         "*every* target has a decoy: a database in which "
+                         "one target lacks its decoy is treated as "
+                         "target-only", node=dnode)
+                raised += 1
+            else:
+                raise AnalysisError(
+                    f"{f.qual}: has_decoys = {show(v, 80)} outside the "
+                    "protein loop is not a form this rule reads")
+        ctx.require(raised >= 1,
+                    f"{f.qual}: no place where has_decoys is raised")
     ok = (kw.get("decoy_prefix") == ("param", "decoy_prefix")
           and set(kw) == {"decoy_prefix", "peptide_map", "shared_peptides",
                           "protein_map", "has_decoys"})
